@@ -228,6 +228,14 @@ pub fn exec(func: &str, a: &mut Args) -> String {
                     Err(_) => s.push_str(" bfl unsupported"),
                 }
             }
+            // are the reported witnesses points of their own shapes at the time of impact?  (real point queries, solid)
+            if let Ok(Some(h)) = &lin {
+                use px::query::PointQuery;
+                let q1 = moved(&pos1, &vel1, h.time_of_impact); let q2 = moved(&pos2, &vel2, h.time_of_impact);
+                let wd = std::panic::catch_unwind(std::panic::AssertUnwindSafe(|| {
+                    (g1.distance_to_point(&q1, &(q1 * h.witness1), true), g2.distance_to_point(&q2, &(q2 * h.witness2), true)) }));
+                if let Ok((a1, a2)) = wd { s.push_str(&format!(" wd {} {}", ff(a1), ff(a2))); }
+            }
             s
         }
         // oracle-only: nonlinear cast with zero angular velocity against the linear cast (target_distance = 0)
